@@ -225,6 +225,15 @@ func run(c *Case, identity bool, st *Stats) *vf.Failure {
 			}
 			st.Classes["kind:"+kindClass(op.Def)] = true
 		case "dml":
+			if op.Stmt.Kind != "insert" {
+				a, b := m.Clone(), m.Clone()
+				a.Apply(op.Stmt, dbh.EvalMode{NullNE: true})
+				b.Apply(op.Stmt, dbh.EvalMode{NullNE: false})
+				if dbh.MultisetDiff(a.Tables[op.Stmt.Table].Rows, b.Tables[op.Stmt.Table].Rows) != "" {
+					st.Classes["dml-skipped-null-ne-ambiguity"] = true
+					continue // "<NULL column> <> constant": the outcome is not fixed by the property; not executed
+				}
+			}
 			if _, err := db.Auto(op.Stmt); err != nil {
 				return vf.Failf("dml-error", "%s %s: %v", when, op.Stmt, err)
 			}
